@@ -26,7 +26,10 @@ def gen_texts(ctx):
     mal = [ringgen.malformed(rng, rng.choice(valid + ringgen.RULES)) for _ in range(ctx.n(700, 20000))]
     hist['malformed'] = len(mal)
     texts += mal
-    texts += [ringgen.long_chain(n) for n in (20, 60, 300)]
+    # long but flat valid input: sizes the unmodified reader handles (its recursion limit is reached near 190 atoms / 190
+    # transformations / 135 constraints: the known finding is about inputs BEYOND that)
+    texts += [ringgen.long_chain(n) for n in (20, 60, 110, 150, 300)]
+    texts += [ringgen.long_rule(n) for n in (60, 150)] + [ringgen.long_constraints(n) for n in (40, 100)]
     return list(dict.fromkeys(texts)), hist
 
 
@@ -69,7 +72,7 @@ def run(ctx):
             ctx.violate('rule-group-duplicates', 'a rule with a reactant group or a duplicated reactant cannot be read (%s)' % k,
                         {'op': 'read', 'text': t}, 'query or RING error', r)
         elif k == 'RecursionError':
-            ctx.violate('recursion-long-chain' if t.startswith('fragment a{C labeled c0 C labeled c1 single') else 'recursion:' + t[:40], 'reading escaped with RecursionError', {'op': 'read', 'text': t[:200] + '...', 'len': len(t)},
+            ctx.violate('recursion-long-chain' if (t.startswith('fragment a{C labeled c0 C labeled c1 single') and t.count(' labeled ') > 160) else 'recursion:%d:%s' % (len(t), t[:40]), 'reading escaped with RecursionError', {'op': 'read', 'text': t[:200] + '...', 'len': len(t)},
                         'query or RING error', r)
         elif k == 'TypeError' and 'labeled AtomLabel' in t:
             ctx.violate('label-named-AtomLabel', 'a label literally named AtomLabel makes reading fail with TypeError', {'op': 'read', 'text': t},
